@@ -25,7 +25,7 @@ def is_control(w, d):
         (len(x) > 29 and x[22] == 0 and x[27] == 0 and w.measure_depth(x[29:]) > 0 and False)
 
 
-def scenario(ctx, seed, goal, phase, party, lose, record_controls=None):
+def scenario(ctx, seed, goal, phase, party, lose, record_controls=None, dups=()):
     """phase: 'half' (stop when hop 1 joined) | 'ready' | 'transfer'; party: who tears down ('o-destroy', 'o-quiet',
     'o-vanish', 'relay', 'exit'); lose: set of ordinal numbers of control messages (created/create/destroy and every
     cell sent after the teardown started) that are dropped instead of delivered"""
@@ -58,6 +58,13 @@ def scenario(ctx, seed, goal, phase, party, lose, record_controls=None):
                         w.lose(d.seq)
                         n += 1
                         continue
+                    if k in dups:
+                        w.dup(d.seq)          # the copy is delivered right behind the original (it is not numbered)
+                        twin = w.net.inflight[-1]
+                        w.deliver(d.seq)
+                        w.deliver(twin.seq)
+                        n += 2
+                        continue
                 w.deliver(d.seq)
                 n += 1
         w.create_circuit("o", goal)
@@ -73,6 +80,11 @@ def scenario(ctx, seed, goal, phase, party, lose, record_controls=None):
                     lossable.append(k)
                     if k in lose:
                         w.lose(d.seq)
+                    elif k in dups:
+                        w.dup(d.seq)
+                        twin = w.net.inflight[-1]
+                        w.deliver(d.seq)
+                        w.deliver(twin.seq)
                     else:
                         w.deliver(d.seq)
         else:
@@ -155,7 +167,7 @@ def scenario(ctx, seed, goal, phase, party, lose, record_controls=None):
         else:
             w.expect_quiet()
         tr = {"events": w.events, "topology": "line4", "seed": seed,
-              "profile": "g%d %s %s lose=%s" % (goal, phase, party, sorted(lose))}
+              "profile": "g%d %s %s lose=%s%s" % (goal, phase, party, sorted(lose), " dup=%s" % sorted(dups) if dups else "")}
         K.check_escapes(ctx, w, tr, "fault-enum")
         if record_controls is not None:
             record_controls.append(len(lossable))
@@ -199,12 +211,14 @@ def run(tier, seed, replay=None):
             keep.append((g, "ready", "exit" if g > 1 else "o-quiet"))
         cells = [c for c in cells if c in keep]
     enumerated = 0
+    ctrl_counts = {}
     for ci, (g, ph, pa) in enumerate(cells):
         counts = []
         tr, hdr = scenario(ctx, seed * 1000 + ci, g, ph, pa, set(), counts)
         if pa != "nobody":
             runs.append(tr)
         ncontrol = counts[0]
+        ctrl_counts[(g, ph, pa)] = ncontrol
         # every single loss always; larger sets up to the cap
         sets = [(i,) for i in range(1, ncontrol + 1)]
         more = [s for f in range(2, maxf + 1) for s in itertools.combinations(range(1, ncontrol + 1), f)]
@@ -214,6 +228,21 @@ def run(tier, seed, replay=None):
             tr, hdr = scenario(ctx, seed * 1000 + ci, g, ph, pa, set(s))
             runs.append(tr)
             enumerated += 1
+    # duplicated control messages (each single one), alone and followed by the loss of a later one: for the cells in which
+    # a circuit is left half-built or abandoned
+    ndup = 0
+    for ci, (g, ph, pa) in enumerate(cells):
+        if pa not in ("nobody", "o-quiet", "o-vanish") or g < 2:
+            continue
+        n_ctrl = ctrl_counts.get((g, ph, pa), 0)
+        pairs = [((d,), ()) for d in range(1, n_ctrl + 1)] + [((d,), (l,)) for d in range(1, n_ctrl + 1) for l in range(d + 1, n_ctrl + 1)]
+        if len(pairs) > (4 if tier == "quick" else 60):
+            pairs = rng.sample(pairs, 4 if tier == "quick" else 60)
+        for d, l in pairs:
+            tr, hdr = scenario(ctx, seed * 1000 + 500 + ci, g, ph, pa, set(l), dups=set(d))
+            runs.append(tr)
+            ndup += 1
+    ctx.note("duplicate_enumeration", {"runs": ndup})
     ctx.note("fault_enumeration", {"cells": len(cells), "fault_sets": enumerated, "runs": len(runs),
                                    "events": sum(len(t["events"]) for t in runs)})
     # validate in batches (one JVM per ~150 runs)
